@@ -65,7 +65,7 @@ def exc(e):
             d[a] = getattr(e, a)
     t = getattr(e, 'token', None)
     if t is not None and hasattr(t, 'type'):
-        d['token'] = (_s(t.type), _s(t), getattr(t, 'start_pos', None), getattr(t, 'line', None), getattr(t, 'column', None))
+        d['token'] = (_s(t.type), _s(getattr(t, 'value', t)), getattr(t, 'start_pos', None), getattr(t, 'line', None), getattr(t, 'column', None))
     for a in ('expected', 'allowed', 'accepts'):
         v = getattr(e, a, None)
         if v is not None:
